@@ -1,0 +1,13 @@
+//go:build verif
+
+package gohlslib
+
+// verifHookFn, when set by a verification harness, is called at every verifHook point
+// so that a counterexample schedule can be forced with real goroutines.
+var verifHookFn func(point string)
+
+func verifHook(point string) {
+	if f := verifHookFn; f != nil {
+		f(point)
+	}
+}
